@@ -25,6 +25,9 @@ def gen(rng, i, tier):
     k = int(rng.integers(1, 4))
     a = [float(10 ** rng.uniform(-1, 1)) for _ in range(k)]
     A = [float(rng.normal() * 3) for _ in range(k)]
+    if rng.random() < 0.4:
+        return dict(kind="closed-nonuniform", a=a[:1], A=[A[0] if abs(A[0]) > 0.1 else 1.0], brk=float(rng.uniform(0.05, 0.15)),
+                    coarse=int(rng.integers(2, 5)), kw=material(rng))
     return dict(kind="closed", a=a, A=A, kw=material(rng))
 
 
@@ -69,6 +72,30 @@ def evaluate(case):
         return fails
     a, A = np.asarray(case["a"]), np.asarray(case["A"])
     amin, amax = float(a.min()), float(a.max())
+    if case["kind"] == "closed-nonuniform":
+        # smooth data on a grid that is fine below a break point and `coarse` times coarser above: the trapezoid rule still
+        # converges (second order); tolerance 2e-3 of scale, the unchanged code is at <= 2e-4
+        a0, A0 = float(a[0]), float(A[0])
+        for direction in ("r->Q", "Q->r"):
+            scale_len = 1 / np.sqrt(a0) if direction == "r->Q" else 2 * np.sqrt(a0)
+            h, R = 0.01 * scale_len, 10.0 * scale_len
+            b = case["brk"] * R
+            g = np.concatenate([np.arange(0.0, b, h), np.arange(b, R + h, h * case["coarse"])])
+            Gf = lambda t: A0 * t * np.exp(-a0 * t * t)  # noqa: E731
+            Ff = lambda t: A0 * np.sqrt(np.pi) * t / (4 * a0 ** 1.5) * np.exp(-t * t / (4 * a0))  # noqa: E731
+            if direction == "r->Q":
+                out = np.linspace(0.0, 5 * np.sqrt(a0), 6)
+                _, num, _ = tr.G_to_F(g, Gf(g), out)
+                ref = Ff(out)
+            else:
+                out = np.linspace(0.0, 2.5 / np.sqrt(a0), 6)
+                _, num, _ = tr.F_to_G(g, Ff(g), out)
+                ref = Gf(out)
+            scl = max(float(np.abs(ref).max()), 1e-300)
+            if np.abs(np.asarray(num) - ref).max() > 2e-3 * scl:
+                fails.append(f"{direction} transform of the smooth closed-form partner on a non-uniform (two-step) grid is off by "
+                             f"{np.abs(np.asarray(num) - ref).max() / scl:.3g} of scale (discretisation accuracy is ~1e-4)")
+        return fails
     hr, Rr = 0.05 / np.sqrt(amax), 12.0 / np.sqrt(amin)
     hq, Rq = 0.05 * 2 * np.sqrt(amin), 12.0 * 2 * np.sqrt(amax)
     r = np.arange(0.0, Rr + hr, hr)
@@ -104,4 +131,4 @@ def evaluate(case):
 
 
 def nontrivial(c):
-    return (c["kind"] == "matched" and c["N"] >= 3) or (c["kind"] == "closed" and any(abs(x) > 0 for x in c["A"]))
+    return (c["kind"] == "matched" and c["N"] >= 3) or (c["kind"].startswith("closed") and any(abs(x) > 0 for x in c["A"]))
